@@ -67,13 +67,13 @@ class Session:
         self.ev.append(e)
         return e
 
-    def cmd(self, t, text, rport=45000):
+    def cmd(self, t, text, rport=45000, rhost="127.0.0.1"):
         if not hasattr(self, "last"):
             self.last, self.hist = {}, {}
         self.last[t] = text          # the last command on this control link (see repeat())
         self.hist.setdefault(t, []).append(text)
         raw = text if isinstance(text, (bytes, bytearray)) else (text.encode() + b"\0")
-        return self._add(self.sim.cmd(t, raw, ("127.0.0.1", rport)))
+        return self._add(self.sim.cmd(t, raw, (rhost, rport)))
 
     def repeat(self, t):
         """The command last sent on this control link once more, octet for octet: every command is
